@@ -18,7 +18,7 @@ VARIABLES l
 vars == <<l>>
 
 ROps == {"RRegister", "RUnregister", "RGet", "Parse"}
-WOps == {"WRegister", "WUnregister", "WGet"}
+WOps == {"WRegister", "WUnregister", "WGet", "WWrite"}   \* WWrite: a write served by the registered driver, as a whole
 Idx(e, Ops) == {i \in DOMAIN e.calls : e.calls[i].op \in Ops}
 Upd(m, k, v) == [x \in DOMAIN m |-> IF x = k THEN v ELSE m[x]]
 Expected(m, key) == IF m[key] = "" THEN "err" ELSE m[key]
@@ -39,7 +39,7 @@ WLin(e, S, m) ==
   S = {} \/ \E i \in S :
     LET c == e.calls[i] key == "w:" \o c.fmt IN
       /\ \A k \in S : ~(e.calls[k].ret < c.inv)                  \* nothing still pending finished before c began
-      /\ (c.op = "WGet" => c.res = Expected(m, key))
+      /\ (c.op \in {"WGet", "WWrite"} => c.res = Expected(m, key))
       /\ WLin(e, S \ {i}, IF c.op = "WRegister" THEN Upd(m, key, c.arg)
                           ELSE IF c.op = "WUnregister" THEN Upd(m, key, "") ELSE m)
 
